@@ -81,6 +81,15 @@ pub fn next_version(rng: &mut Rng, spec: &WsSpec, file: &str, current: &str, las
     } else {
         (super::ws::join_rel(&fdir, "orphan_fixtures.py"), "orphan_fixtures")
     };
+    let site_orphan = format!("{}/thirdlib_orphan/fixtures.py", super::ws::SITE);
+    if file == "conftest.py" && spec.file(&site_orphan).is_some() && !current.contains("thirdlib_orphan") && rng.chance(400) {
+        // the edit declares an installed module (no entry point, the scan never reached it) as a plugin and uses one of
+        // its fixtures in a body without declaring it: a finding of this very version
+        let mut all = vec![Item::Plugins { modules: vec!["thirdlib_orphan.fixtures".into()], targets: vec![Some(site_orphan.clone())] }];
+        all.extend(pf.items.iter().filter(|i| !matches!(i, Item::Plugins { .. })).cloned());
+        all.push(Item::Fixture(super::pytext::Fx { func: "uses_lib_orphan".into(), body_uses: vec!["lib_orphan_fx".into()], ..Default::default() }));
+        return render(&all).text;
+    }
     let pick = if file.ends_with("conftest.py") && spec.file(&orphan).is_some() && !current.contains("orphan_fixtures") && rng.chance(300) { 7 } else { rng.below(12) };
     match pick {
         0 => current.to_string(),                 // identical resend
@@ -98,6 +107,12 @@ pub fn next_version(rng: &mut Rng, spec: &WsSpec, file: &str, current: &str, las
             // the edit starts importing a module nobody imported so far (the scan never analysed it)
             let mut all = vec![Item::Star { module: if rng.chance(500) { format!(".{}", orphan_mod) } else { orphan_mod.to_string() }, target: Some(orphan.clone()) }];
             all.extend(pf.items.iter().cloned());
+            // ... and uses one of its fixtures in a body without declaring it (a finding of THIS version of the document)
+            if let Some(n) = spec.file(&orphan).and_then(|of| of.items.iter().find_map(|i| if let Item::Fixture(fx) = i { Some(fx.name().to_string()) } else { None })) {
+                if rng.chance(600) {
+                    all.push(Item::Fixture(super::pytext::Fx { func: "uses_imported".into(), body_uses: vec![n], ..Default::default() }));
+                }
+            }
             render(&all).text
         }
         6 if !imports.is_empty() || prop == "C07" => {
@@ -168,9 +183,17 @@ impl Scenario for History {
             small_ws(&mut rng, imports)
         };
         let names = names_pool(4);
+        if self.prop == "C06L" && rng.chance(250) {
+            // an installed library module with a fixture, not registered through any entry point
+            spec.files.push(super::pytext::PyFile { rel: format!("{}/thirdlib_orphan/fixtures.py", super::ws::SITE), items: vec![Item::Fixture(super::pytext::Fx { func: "lib_orphan_fx".into(), ..Default::default() })] });
+            spec.files.push(super::pytext::PyFile { rel: format!("{}/thirdlib_orphan/__init__.py", super::ws::SITE), items: vec![] });
+            if spec.file("conftest.py").is_none() {
+                spec.files.push(super::pytext::PyFile { rel: "conftest.py".into(), items: vec![] });
+            }
+        }
         // (the module nobody imports is never edited directly: whether the index holds its on-disk version then depends on
         // whether an import was followed before or after the editor opened it - the statement has no answer for that)
-        let files: Vec<String> = spec.files.iter().filter(|f| f.rel.ends_with(".py") && !f.rel.ends_with("__init__.py") && !f.rel.ends_with("orphan_fixtures.py") && !f.rel.ends_with("deep_orphan.py")).map(|f| f.rel.clone()).collect();
+        let files: Vec<String> = spec.files.iter().filter(|f| f.rel.ends_with(".py") && !f.rel.ends_with("__init__.py") && !f.rel.ends_with("orphan_fixtures.py") && !f.rel.ends_with("deep_orphan.py") && !f.rel.starts_with(".venv")).map(|f| f.rel.clone()).collect();
         let mut cur: BTreeMap<String, String> = spec.files.iter().map(|f| (f.rel.clone(), render(&f.items).text)).collect();
         let disk = cur.clone();
         let mut last_valid = cur.clone();
@@ -590,6 +613,11 @@ fn check_fresh_twin(res: &mut HRes, live: &Arc<FixtureDatabase>, log: &[(String,
     let mut order: Vec<(usize, String, String)> = last_valid.into_iter().map(|(f, (i, t))| (i, f, t)).collect();
     order.sort();
     let twin = Arc::new(FixtureDatabase::new());
+    if scan_len > 0 {
+        // the long-lived server started with a scan of the files on disk: so does the fresh one (it learns where
+        // site-packages is, which plugins exist, ...); the analyses below then replace what the history changed
+        twin.scan_workspace(root);
+    }
     for (_, f, t) in &order {
         twin.analyze_file(root.join(f), t);
     }
@@ -615,6 +643,11 @@ fn check_fresh_twin(res: &mut HRes, live: &Arc<FixtureDatabase>, log: &[(String,
     if let Some((idx, lastf, _)) = order.last() {
         if log.last().map(|(f, _)| f) == Some(lastf) && *idx >= scan_len {
             let p = root.join(lastf);
+            // "obtained by analyzing it last on that fresh server": once the fresh index is complete (modules the
+            // document imports included), the document is analysed (again) and its findings are read
+            if let Some((_, _, t)) = order.last() {
+                twin.analyze_file(p.clone(), t);
+            }
             let ua: Vec<String> = live.get_undeclared_fixtures(&p).iter().map(|u| format!("{}@{}:{}", u.name, u.line, u.start_char)).collect();
             let ub: Vec<String> = twin.get_undeclared_fixtures(&p).iter().map(|u| format!("{}@{}:{}", u.name, u.line, u.start_char)).collect();
             if ua != ub {
